@@ -83,7 +83,7 @@ impl Property for P {
     }
     fn cases(tier: Tier) -> u64 {
         match tier {
-            Tier::Quick => 20_000,
+            Tier::Quick => 60_000,
             Tier::Thorough => 1_500_000,
         }
     }
